@@ -3,6 +3,7 @@ import SV.Spec.C06
 import SV.Spec.C06Style
 import SV.Model.C06Headers
 import SV.Spec.C06Session
+import SV.Model.C06Template
 open SV SV.Wire SV.Model.C06 SV.Spec.C06
 
 def asBytes (j : Json) : Except String Bytes := asList asNat j
@@ -249,6 +250,24 @@ def handle : Handler := fun op a => do
     let loc ← decLoc (← field a "loc")
     let defs ← asList decPDef (← field a "defs")
     return jopt encContainer (templateSerialize vq vt vm vs loc defs (← decContainer (← field a "container")))
+  | "template_history" =>
+    let vq ← decVariant (← field a "vq"); let vt ← decVariant (← field a "vt"); let vm ← decVariant (← field a "vm")
+    let vs ← decVariant (← field a "vs")
+    let defsL ← asList (fun j => do return (← decLoc (← field j "loc"), ← asList decPDef (← field j "defs"))) (← field a "defs")
+    let defs : Loc → List PDef := fun l => match defsL.find? (·.1 = l) with | some (_, d) => d | none => []
+    let conts ← asList (fun j => do return (← decLoc (← field j "loc"), ← decContainer (← field j "container"))) (← field a "conts")
+    let ops ← asList (fun j => do
+      match ← asStr (← field j "op") with
+      | "unmodified" => return TOp.unmodified
+      | "withParameter" => return TOp.withParameter (← decLoc (← field j "loc")) (← asText (← field j "name")) (← decVal (← field j "value"))
+      | "withContainer" => return TOp.withContainer (← decLoc (← field j "loc")) (← decContainer (← field j "container"))
+      | o => .error s!"template op {o}") (← field a "ops")
+    let ca ← (match ← asStr (a.getD "copy" (.str "entry")) with
+      | "entry" => pure CopyAt.entry | "beforeSerializer" => pure CopyAt.beforeSerializer | o => .error s!"copy {o}")
+    let encLoc : Loc → Json := fun l => match l with
+      | .path => .str "path" | .query => .str "query" | .header => .str "header" | .cookie => .str "cookie"
+    return .arr ((runT ca ⟨vq, vt, vm, vs, defs⟩ ⟨conts⟩ ops).map fun cs =>
+      .arr (cs.map fun (l, oc) => .arr [encLoc l, jopt encContainer oc]))
   | "utf8" =>
     let s ← asText (← field a "s")
     return jobj [("bytes", jbytes (utf8 s)), ("back", jopt jtext (utf8Decode (utf8 s)))]
